@@ -1107,8 +1107,14 @@ class Walker:
             return  # a listed/just-reported partial effect already corrupted it
         ref = snap.snapshot(seq)
         if not seq.is_parametrized() and not seq.is_register_mappable():
-            cp = ctx.must(lambda: seq.build(), C, "build() of a built sequence")
-            d = snap.diff(ref, snap.snapshot(cp))
+            # (declared but unused variables still need a value)
+            vals = {n: ([1] * v.size if v.size > 1 else 1) if v.dtype is int else
+                    ([1.0] * v.size if v.size > 1 else 1.0)
+                    for n, v in seq.declared_variables.items()}
+            cp = ctx.must(lambda: seq.build(**vals), C, "build() of a built sequence")
+            # (the built copy does not carry the variable declarations)
+            novar = lambda s_: {k: v for k, v in s_.items() if k != "variables"}  # noqa: E731
+            d = snap.diff(novar(ref), novar(snap.snapshot(cp)))
             if d:
                 ctx.fail(C, f"build:{snap.diff_key(d)}", f"seq.build() differs: {d}", cont=True)
         reg = seq._register
